@@ -4,7 +4,7 @@ verus! {
 //@ include prelude/base.rs
 //@ include prelude/std_assumed.rs
 //@ shims features git_config cli config
-//@ broadcast vax::vax_group vstd::std_specs::hash::group_hash_axioms axiom_string_obeys_key_model axiom_borrowed_string_keys axiom_borrowed_string_values axiom_str_key_inverse axiom_to_string_string
+//@ broadcast vax::vax_group vstd::std_specs::hash::group_hash_axioms axiom_string_obeys_key_model axiom_borrowed_string_keys axiom_borrowed_string_values axiom_str_key_inverse axiom_to_string_string axiom_str_is_its_text
 use vstd::std_specs::hash::*;
 pub assume_specification<T, A: std::alloc::Allocator>[ <Vec<T, A> as From<std::collections::VecDeque<T, A>>>::from ](v: std::collections::VecDeque<T, A>) -> (r: Vec<T, A>)
     ensures r@ == v@;
@@ -40,9 +40,21 @@ pub mod git2 {
         pub fn get_string(&self, key: &str) -> (r: Result<String, ()>)
             ensures match r { Ok(v) => file_string(self, key@) == Some(v@), Err(_) => file_string(self, key@) is None },
         { unimplemented!() }
+        /// ASSUMED contracts of git2 `Config::get_i64` / `get_bool`: functions of the file and the key.
+        #[verifier::external_body]
+        pub fn get_i64(&self, key: &str) -> (r: Result<i64, ()>)
+            ensures match r { Ok(v) => file_i64(self, key@) == Some(v), Err(_) => file_i64(self, key@) is None },
+        { unimplemented!() }
+        #[verifier::external_body]
+        pub fn get_bool(&self, key: &str) -> (r: Result<bool, ()>)
+            ensures match r { Ok(v) => file_bool(self, key@) == Some(v), Err(_) => file_bool(self, key@) is None },
+        { unimplemented!() }
     }
+    pub uninterp spec fn file_i64(c: &Config, key: Seq<char>) -> Option<i64>;
+    pub uninterp spec fn file_bool(c: &Config, key: Seq<char>) -> Option<bool>;
 }
 use git2::file_string;
+use git2::{file_i64, file_bool};
 //@ type src/git_config/mod.rs GitConfig keep=config,config_from_env_var,enabled noderive
 
 /// C13: "the main [delta] gitconfig section (including GIT_CONFIG_PARAMETERS overrides)": an override
@@ -73,6 +85,46 @@ pub open spec fn optopt_view(o: Option<Option<String>>) -> Option<Seq<char>> { m
 //@ fn src/git_config/mod.rs Option@GitConfigGet::git_config_get as=git_config_get_option_string self=Option<String>
 //@| ensures string_lookup_ok(git_config, key, optopt_view(r)),  // @C13:optional.string.option.override.beats.file
 //@|         r matches Some(inner) ==> inner is Some,
+
+/// (R3) `s.parse::<usize>()`: "Parses this string slice into another type"; uninterpreted
+pub uninterp spec fn parse_usize_spec(s: Seq<char>) -> Option<usize>;
+#[verifier::external_body]
+pub fn verif_parse_usize(s: &String) -> (r: Result<usize, ()>)
+    ensures match r { Ok(n) => parse_usize_spec(s@) == Some(n), Err(_) => parse_usize_spec(s@) is None },
+{ unimplemented!() }
+/// C13 for integer options: an override given with `git -c` that is a number beats the file; otherwise WHATEVER number
+/// the file holds for the key is the value - zero included (a source that sets 0 has set the option)
+pub open spec fn usize_lookup_ok(gc: &GitConfig, key: &str, r: Option<usize>) -> bool {
+    if gc.config_from_env_var@.contains_key(str_key(key@)) && parse_usize_spec(gc.config_from_env_var@[str_key(key@)]@) is Some {
+        r == parse_usize_spec(gc.config_from_env_var@[str_key(key@)]@)
+    } else {
+        match file_i64(&gc.config, key@) { Some(v) => r is Some && (v >= 0 ==> r == Some(v as usize)), None => r is None }
+    }
+}
+//@ fn src/git_config/mod.rs usize@GitConfigGet::git_config_get as=git_config_get_usize self=usize
+//@| ensures usize_lookup_ok(git_config, key, r),  // @C13:integer.option.override.beats.file.and.whatever.number.the.file.holds.counts.zero.included
+//@rewrite <<<s.parse::<usize>()>>> => <<<verif_parse_usize(s)>>>
+
+/// (R3) `map.get(key).map(|s| s.as_str())`
+#[verifier::external_body]
+pub fn verif_get_as_str<'a>(m: &'a HashMap<String, String>, key: &str) -> (r: Option<&'a str>)
+    ensures m@.contains_key(str_key(key@)) ==> r is Some && r.unwrap()@ == m@[str_key(key@)]@,
+            !m@.contains_key(str_key(key@)) ==> r is None,
+{ unimplemented!() }
+/// ASSUMED: a `str` is its text
+pub broadcast axiom fn axiom_str_is_its_text(a: &str, b: &str)
+    ensures #![trigger a@, b@] a@ == b@ ==> a == b;
+/// C13 for boolean options: an override spelled `true` or `false` beats the file; otherwise the file decides
+pub open spec fn bool_lookup_ok(gc: &GitConfig, key: &str, r: Option<bool>) -> bool {
+    let has = gc.config_from_env_var@.contains_key(str_key(key@));
+    if has && gc.config_from_env_var@[str_key(key@)]@ == "true"@ { r == Some(true) }
+    else if has && gc.config_from_env_var@[str_key(key@)]@ == "false"@ { r == Some(false) }
+    else { r == file_bool(&gc.config, key@) }
+}
+//@ fn src/git_config/mod.rs bool@GitConfigGet::git_config_get as=git_config_get_bool self=bool
+//@| ensures bool_lookup_ok(git_config, key, r),  // @C13:boolean.option.override.beats.file
+//@rewrite <<<git_config.config_from_env_var.get(key).map(|s| s.as_str())>>> => <<<verif_get_as_str(&git_config.config_from_env_var, key)>>>
+//@before <<<match verif_get_as_str>>>| proof { reveal_strlit("true"); reveal_strlit("false"); }
 
 impl GitConfig {
     //@ fn src/git_config/mod.rs GitConfig::get
